@@ -21,7 +21,7 @@
 From Coq Require Import List Arith NArith Bool Permutation.
 Import ListNotations.
 Require Import Celma.Common.Res Celma.Text.TextBlockModel Celma.Text.TextBlockProofs.
-Require Import Celma.Text.Usage Celma.Text.UsageProofs Celma.Text.UsageDigest Celma.Text.UsageSub Celma.Text.UsageAgain.
+Require Import Celma.Text.Usage Celma.Text.UsageProofs Celma.Text.UsageDigest Celma.Text.UsageSub Celma.Text.UsageAgain Celma.Text.UsagePath Celma.Text.UsagePathProofs.
 Require Celma.ArgH.Key Celma.ArgH.Table.
 
 (** usage_section: the usage is the mandatory section followed by the optional
@@ -393,6 +393,57 @@ Theorem C18_usage_printed_again :
     hout s' = hout s ++ repeat_lines n (usage_lines (hp s) width (start_args f ++ user)).
 Proof. exact print_again_spec. Qed.
 Print Assumptions C18_usage_printed_again.
+
+(** --help-arg with a path "group/.../argument" through sub-groups of any
+    depth (Text/UsagePath.v; added after the seeded change C18-6, which split
+    the path at the last slash, was missed).  [chain node comps node']: every
+    component names - exactly, or by a unique abbreviation where the handler
+    allows abbreviations - a sub-group argument of the handler reached so far.
+    Then the request is answered by the handler at the end of the chain as
+    Handler::helpArgument answers a plain key: the description of the argument
+    or "is unknown". *)
+Theorem C18_help_path_follows_the_groups :
+  forall f user gs comps node node' last fuel,
+    chain f gs node comps node' -> Key.mem SLASH last = false -> length (join comps last) < fuel ->
+    help_path f user gs fuel node (join comps last)
+    = do r <- help_leaf (node_abbr f gs node') (node_args f user gs node') (sub_args_of gs node') last;
+      Ok (r, match comps with [] => true | _ => false end).
+Proof. exact help_path_chain. Qed.
+Print Assumptions C18_help_path_follows_the_groups.
+
+(** a component that names no sub-group of the handler reached is reported by
+    that handler with the rest of the path; nothing goes to the output stream *)
+Theorem C18_help_path_unknown_group :
+  forall f user gs comps node node' c k cs last fuel,
+    chain f gs node comps node' -> Key.mem SLASH c = false -> Key.parse_key c = Ok k ->
+    Table.find_arg (node_abbr f gs node') (sub_table gs node') k = Ok None ->
+    length (join (comps ++ c :: cs) last) < fuel ->
+    help_path f user gs fuel node (join (comps ++ c :: cs) last)
+    = Ok (HelpUnknown [S_ERR_SUB ++ join (c :: cs) last ++ S_ERR_UNKNOWN],
+          match comps with [] => true | _ => false end).
+Proof. exact help_path_unknown_group. Qed.
+Print Assumptions C18_help_path_unknown_group.
+
+(** whatever the path: a description block on the output stream or exactly one
+    error line - never nothing; the recursion never runs out of fuel; without a
+    slash it is the helpArgument of the theorems above *)
+Theorem C18_help_path_answers :
+  forall f user gs fuel node ks r top,
+    help_path f user gs fuel node ks = Ok (r, top) ->
+    (exists l ls, r = HelpOut (l :: ls)) \/ (exists l, r = HelpUnknown [l]).
+Proof. exact help_path_answers. Qed.
+Print Assumptions C18_help_path_answers.
+
+Theorem C18_help_path_total :
+  forall f user gs n node ks, length ks < n -> SafeProofs.nofault (help_path f user gs n node ks).
+Proof. exact help_path_total. Qed.
+Print Assumptions C18_help_path_total.
+
+Theorem C18_help_path_plain_key :
+  forall abbr margs sgs ks, Key.mem SLASH ks = false ->
+    help_leaf abbr margs (map sub_arg sgs) ks = help_argument_sg abbr margs sgs ks.
+Proof. exact help_leaf_is_help_argument_sg. Qed.
+Print Assumptions C18_help_path_plain_key.
 
 (** pinned code, defect 3: with hfUsageHidden | hfArgHidden the argument
     --print-hidden switches the display of hidden arguments off *)
